@@ -472,3 +472,31 @@ func runTrace(lines []string, dev []string) (*tlc.Result, error) {
 		Constants: map[string]string{"Dev": devSet(dev)},
 		Files:     map[string]string{"trace.ndjson": f.Name()}})
 }
+
+// TSView is the sub-suite of the JSON cases re-targeted at the emitted TypeScript server: same
+// shapes, schema and concrete requests, abstract requests marked server = "ts".
+func (s *Suite) TSView() *Suite {
+	t := &Suite{Prefix: s.Prefix, Shapes: s.Shapes, byKey: s.byKey, Schema: s.Schema, Built: s.Built, Files: s.Files}
+	for _, c := range s.Cases {
+		if c.A.Body.Ctype != "json" {
+			continue // the TS server speaks JSON only
+		}
+		if c.A.Body.Cls == "malformed" {
+			continue // what a server answers to an undecodable body is C11's statement, made for the Go server
+		}
+		cp := *c
+		cp.A.Server = "ts"
+		t.Cases = append(t.Cases, &cp)
+	}
+	return t
+}
+
+// ShapeOf returns the RPC shape a case belongs to.
+func (s *Suite) ShapeOf(c *Case) *Shape { return s.byKey[c.RpcKey] }
+
+// PkgOf is the Go package directory ("gen/w0") of a shape; ProtoPkg its proto package.
+func (s *Suite) PkgOf(sh *Shape) string    { return s.pkgOf(sh) }
+func (s *Suite) ProtoPkg(sh *Shape) string { return s.protoPkg(sh) }
+
+// OutMsg is the sample response of a shape.
+func (s *Suite) OutMsg(sh *Shape) *dynamicpb.Message { return s.outMsg(sh) }
